@@ -6,6 +6,9 @@ up to three duct walls and three neighbouring gap cells).  Used by the generated
 -/
 import Mathlib.Algebra.Order.Field.Basic
 import Mathlib.Tactic.Linarith
+import Mathlib.Algebra.BigOperators.Group.List.Basic
+import Mathlib.Algebra.Order.BigOperators.Group.List
+import Mathlib.Tactic.FieldSimp
 
 namespace Dassh.Convex
 
@@ -64,5 +67,28 @@ theorem bounds6 (w1 w2 w3 w4 w5 w6 x1 x2 x3 x4 x5 x6 lo hi : K) (h1 : 0 ≤ w1) 
   constructor
   · linarith [mul_le_mul_of_nonneg_left b1.1 h1, mul_le_mul_of_nonneg_left b2.1 h2, mul_le_mul_of_nonneg_left b3.1 h3, mul_le_mul_of_nonneg_left b4.1 h4, mul_le_mul_of_nonneg_left b5.1 h5, mul_le_mul_of_nonneg_left b6.1 h6]
   · linarith [mul_le_mul_of_nonneg_left b1.2 h1, mul_le_mul_of_nonneg_left b2.2 h2, mul_le_mul_of_nonneg_left b3.2 h3, mul_le_mul_of_nonneg_left b4.2 h4, mul_le_mul_of_nonneg_left b5.2 h5, mul_le_mul_of_nonneg_left b6.2 h6]
+
+/-- sum of a list whose members lie in `[lo, hi]` -/
+theorem sum_bounds (xs : List K) (lo hi : K) (h : ∀ x ∈ xs, lo ≤ x ∧ x ≤ hi) :
+    (xs.length : K) * lo ≤ xs.sum ∧ xs.sum ≤ (xs.length : K) * hi := by
+  induction xs with
+  | nil => simp
+  | cons x t ih =>
+    have hx := h x List.mem_cons_self
+    have ht := ih (fun y hy => h y (List.mem_cons_of_mem _ hy))
+    simp only [List.length_cons, List.sum_cons, Nat.cast_add, Nat.cast_one]
+    constructor <;> nlinarith [hx.1, hx.2, ht.1, ht.2]
+
+/-- the arithmetic mean of any non-empty list (the duct-average gap model averages the one to three duct walls a gap cell
+touches) lies between any bounds of its members -/
+theorem mean_bounds (xs : List K) (hne : xs ≠ []) (lo hi : K) (h : ∀ x ∈ xs, lo ≤ x ∧ x ≤ hi) :
+    lo ≤ xs.sum / (xs.length : K) ∧ xs.sum / (xs.length : K) ≤ hi := by
+  have hpos : (0 : K) < (xs.length : K) := by
+    have : 0 < xs.length := List.length_pos_iff.mpr hne
+    exact_mod_cast this
+  obtain ⟨h1, h2⟩ := sum_bounds xs lo hi h
+  constructor
+  · rw [le_div_iff₀ hpos]; linarith
+  · rw [div_le_iff₀ hpos]; linarith
 
 end Dassh.Convex
